@@ -751,3 +751,80 @@ def value_has_fmt_attr(case, v):
     if any(f["attr"] and f["attr"][0] == "fmt" for f in fs["list"]):
         return True
     return any(value_has_fmt_attr(case, x) for x in v[3])
+
+
+# ------------------------------------------------------------------ programs (Model.dval), bounds
+
+def dval_coq(case, leaves, v):
+    """Coq [dval] of a value tree: flavour-independent; Model.dm_val / Model.std_val give the two sides"""
+    k = v[0]
+    rec = lambda x: dval_coq(case, leaves, x)
+    if k == "leaf":
+        key = leaves.items[v[1]][0]
+        return "(DLeaf (%s LT%d_Debug nil))" % ("leaf_table_err" if key == "Fail" else "leaf_table", v[1])
+    if k == "some":
+        return "(DStd %s %s)" % (coq_str("Some"), clist([rec(v[1])]))
+    if k == "none":
+        return "(DName %s)" % coq_str("None")
+    if k in ("vec", "arr"):
+        return "(DList %s)" % clist(rec(x) for x in v[1])
+    if k in ("box", "ref"):
+        return rec(v[1])
+    if k == "tup":
+        return "(DStd nil %s)" % clist(rec(x) for x in v[1])
+    assert k == "adt"
+    it = case["items"][v[1]]
+    if it["kind"] == "struct":
+        name, fs = it["name"], it["fields"]
+    else:
+        name, fs = it["variants"][v[2]]["name"], it["variants"][v[2]]["fields"]
+    kids = [rec(x) for x in v[3]]
+
+    def farg(i):
+        a = fs["list"][i]["attr"]
+        if a is None or a[0] != "fmt":
+            return "(DName nil)"
+        parts = []
+        for (l, kk, ref) in a[1]["parts"]:
+            sp, tr = ARGSPECS[kk]
+            if tr == "Debug":
+                x = kids[ref[1]]
+            else:
+                fv = v[3][ref[1]]
+                assert fv[0] == "leaf"
+                x = "(DLeaf (leaf_table LT%d_%s nil))" % (fv[1], tr)
+            parts.append("(%s, %s, %s)" % (coq_str(l), spec_coq(sp), x))
+        return "(DArgs %s %s)" % (clist(parts), coq_str(a[1]["tail"]))
+
+    return "(DAdt %s %s %s)" % (expansion_coq(name, fs), clist(kids), clist(farg(i) for i in range(len(kids))))
+
+
+def ty_generic(t):
+    """does the type mention a type parameter (what contains_generics decides for these shapes)"""
+    k = t[0]
+    if k == "param":
+        return True
+    if k in ("opt", "vec", "box", "ref", "arr"):
+        return ty_generic(t[1])
+    if k == "tup":
+        return any(ty_generic(x) for x in t[1])
+    if k == "adt":
+        return any(ty_generic(x) for x in t[2])
+    return False
+
+
+TRAIT_COQ = {"Debug": "TrDebug", "Display": "TrDisplay", "LowerHex": "TrLowerHex"}
+
+
+def bounds_coq(name, fs):
+    """Gallina call of Model.generate_bounds for one struct / variant"""
+    flags = "; ".join("true" if ty_generic(f["ty"]) else "false" for f in fs["list"])
+    refs = []
+    for f in fs["list"]:
+        a = f["attr"]
+        if a and a[0] == "fmt":
+            refs.append("[" + "; ".join("(%d%%nat, %s)" % (ref[1], TRAIT_COQ[ARGSPECS[k][1]]) for (_, k, ref) in a[1]["parts"]) + "]")
+        else:
+            refs.append("[]")
+    return "generate_bounds (fun j => nth j [%s] false) (fun i _ => nth i [%s] []) %s" % (
+        flags, "; ".join(refs), expansion_coq(name, fs))
